@@ -491,7 +491,10 @@ pub fn c04(tier: &str, seed: u64) -> i32 {
         }
         // key slot classes: a freed key slot of every class is reused under the iterator oracle
         if ctx.run.violations.is_empty() {
-            crate::props_a::class_ladder_keys(&mut ctx, "C04", crate::engine_a::O_ITER, 0, false, 1);
+            crate::props_a::class_ladder(&mut ctx, "C04", crate::engine_a::O_ITER, 0, false, if thorough { 1 } else { 2 });
+            if !thorough && ctx.run.violations.is_empty() {
+                crate::props_a::class_ladder_keys(&mut ctx, "C04", crate::engine_a::O_ITER, 0, false, 1);
+            }
         }
         // histories in which key records are relocated and chains re-linked (offsets crossing 16 KiB)
         let specs = vec![
@@ -501,6 +504,9 @@ pub fn c04(tier: &str, seed: u64) -> i32 {
             crate::props_c08::SeedSpec { file: "both", boundary: 16 * 1024, eps: 16, free_slots: 2 , val_pad: 0},
         ];
         crate::props_c08::seeded_group(&mut ctx, "C04", crate::engine_a::O_ITER, 0, 2, vec![3, 200], &specs, 60_000, 10.0);
+        // chain links of three bytes next to value offsets of two (key file beyond 192 KiB, freed slots behind a 1 200-byte value)
+        let specs200 = vec![crate::props_c08::SeedSpec { file: "key", boundary: 200 * 1024, eps: 0, free_slots: 2, val_pad: 1201 }];
+        crate::props_c08::seeded_group(&mut ctx, "C04", crate::engine_a::O_ITER, 0, 3, vec![3], &specs200, 30_000, 6.0);
         if thorough {
             for kt in [KtId::Str, KtId::U64, KtId::I64, KtId::Vu64] {
                 let a = &crate::props_a::alphas_small()[0];
